@@ -12,6 +12,11 @@ Theorem C14_lexer_rules_pinned : Generated.lexer_rules = lexer_rules_pin.
 Proof. exact lexer_pin. Qed.
 Theorem C14_grammar_tags_pinned : filter used_tag Generated.grammar_tags = grammar_tags_pin.
 Proof. exact grammar_pin. Qed.
+(* the parser options the model accounts for: the Int-token mapper (base-10 integers) is the
+   modelled one, and DefaultParserOptions holds no option the model does not know *)
+Theorem C14_parser_options_pinned :
+  Generated.lexer_map = lexer_map_pin /\ Generated.parser_unknown_options = [].
+Proof. split; reflexivity. Qed.
 
 Theorem C14_to_ops_postfix : forall t : Expression, to_ops t = postfix_of (bexpr_of t).
 Proof. exact (@C14_to_ops_postfix). Qed.
@@ -166,3 +171,4 @@ Print Assumptions C14_parse_block_total.
 Print Assumptions C14_parse_authorizer_total.
 Print Assumptions C14_lexer_rules_pinned.
 Print Assumptions C14_grammar_tags_pinned.
+Print Assumptions C14_parser_options_pinned.
